@@ -24,7 +24,7 @@ func init() {
 		Real:           []string{"ext.bodyStream.Read/skipRest/ReleaseBodyStream", "ext.ReadBodyWithStreaming", "req.ReadBodyStream/ContinueReadBodyStream", "utils.ParseChunkSize/SkipCRLF", "http1.Server.Serve", "standard.Conn"},
 		Stub:           []string{"TCP (SimConn)", "peer (scripted actor)", "transporter accept loop (stub)", "clock (synctest)"},
 		Assumptions:    []string{"standard transport only", "MaxRequestBodySize left at its default (above every generated body)"},
-		RequiredProbes: []string{"fragments", "stop-early", "stop-mid-chunk", "never-touch", "read-past-eof", "chunked", "fixed-over-prefetch", "probe-after-response", "probe-pipelined", "exhaustive-stop", "hostile-body", "bad-trailer", "stall", "two-connections", "return-to-transport"},
+		RequiredProbes: []string{"fragments", "stop-early", "stop-mid-chunk", "never-touch", "read-past-eof", "chunked", "fixed-over-prefetch", "probe-after-response", "probe-pipelined", "exhaustive-stop", "hostile-body", "bad-trailer", "stall", "two-connections", "return-to-transport", "fin-in-body-error", "tiny-chunks"},
 	}
 }
 
@@ -179,6 +179,7 @@ func RunC14(ep *core.Episode) {
 	handlerDone := false
 	warmSeen := false
 	stalledRead := false
+	finCut := false
 	echoB := &Echo{Stream: true}
 	// request X on the second connection: streamed, read to the end by its handler
 	var xBody, xGot []byte
@@ -301,6 +302,11 @@ func RunC14(ep *core.Episode) {
 						ep.Fault("stall")
 						break
 					}
+					if finCut {
+						// the peer ended its stream inside the body: an error, never a clean end-of-stream
+						ep.Probe("fin-in-body-error")
+						break
+					}
 					if badTrailer && len(got) == L {
 						// the body is complete; the malformed trailer section is reported as an error
 						ep.Probe("bad-trailer-error")
@@ -335,7 +341,23 @@ func RunC14(ep *core.Episode) {
 	srv.Start()
 	conn := srv.Connect("c1")
 	cl := NewClient(ep, conn)
-	pipelined := tp.Choose("bwith", 2) == 0
+	// 0: B is pipelined behind A; 1: B follows A's response; 2: the peer ends its stream inside A's body;
+	// 3: pipelined, and A's body comes in thousands of one-byte chunks
+	bw := tp.Choose("bwith", 4)
+	finCut = bw == 2 && !stall && mode != 4 && L > 0
+	if bw == 3 && ga.M.Chunked && mode != 4 && L > 4096 && L <= 30000 {
+		ga.M.ChunkSizes = make([]int, L)
+		for i := range ga.M.ChunkSizes {
+			ga.M.ChunkSizes[i] = 1
+		}
+		ga.M.ChunkExts = nil
+		ga.Bytes, ga.Bounds = ga.M.Encode()
+		if tp.Choose("tinystop", 3) > 0 {
+			stop = -1 + tp.Choose("tinystopk", 3) // nothing, or next to nothing, is consumed by the handler
+		}
+		ep.Probe("tiny-chunks")
+	}
+	pipelined := bw == 0 || bw == 3
 	mode2 := 0
 	if !pipelined {
 		mode2 = 1
@@ -362,6 +384,13 @@ func RunC14(ep *core.Episode) {
 		}
 		cl.Sends = append(cl.Sends, Send{Data: gb.Bytes, AfterResps: after, Label: "B"})
 		ga.Expect100 = false
+	} else if finCut {
+		// A up to a point inside its body, then the peer's FIN: the stream must fail, not end
+		cut := ga.HeadLen + 1 + tp.Choose("fincut", len(ga.Bytes)-ga.HeadLen-1)
+		cl.Methods = append(cl.Methods, ga.M.Method)
+		cl.Sends = append(cl.Sends, Send{Data: ga.Bytes[:cut], Bounds: ga.Bounds, Label: "A-cut"}, Send{Kind: "fin"})
+		ga.Expect100 = false
+		ep.Fault("peer-fin-in-body")
 	} else {
 		ScriptRequests(tp, cl, []*GenReq{ga, gb}, mode2)
 	}
@@ -432,6 +461,14 @@ func RunC14(ep *core.Episode) {
 		ep.Nontrivial = true
 		return
 	}
+	if len(invs) == 0 && finCut {
+		// the stream ended inside the part of the body the server reads before it calls the handler
+		if !conn.A.IsClosed() {
+			ep.Fail("C14.sync", "the peer ended its stream inside A's body, no handler ran, and the connection was not closed")
+		}
+		ep.Nontrivial = true
+		return
+	}
 	if len(invs) == 0 {
 		ep.Fail("C14.sync", "request A never reached its handler (serve err=%v, responses %s)", conn.Err, respSummary(cl))
 		return
@@ -476,7 +513,7 @@ func RunC14(ep *core.Episode) {
 		}
 		ep.Probe("B-served")
 	}
-	if stop > L && len(got) != L && !ep.Failed() && !stalledRead {
+	if stop > L && len(got) != L && !ep.Failed() && !stalledRead && !finCut {
 		ep.Fail("C14.prefix", "read to EOF returned %d of %d bytes", len(got), L)
 		return
 	}
